@@ -44,12 +44,17 @@ def run(ck):
                       "fault-free result, with no leak and no allocator misuse (ASan/UBSan). copy_file and file_equals fallbacks are exercised by C14/C15.")
     ck.assumptions += ["a refusing allocator returns NULL and leaves its other blocks intact"]
     if not ck.build_driver(): return
-    mods = ["ZixModel.Properties.C07", "ZixModel.Properties.C07Env"]
+    mods = ["ZixModel.Properties.C07", "ZixModel.Properties.C07Env", "ZixModel.Properties.C08Ring"]
     if not ck.prove(mods):
         ck.report_proof_failure("allocation-failure theorems no longer build")
     q = ck.tier == "quick"
     # environment expansion under an arbitrary refusal pattern: result and allocator events vs Model/EnvAlloc.lean
     # (theorems expandA_atomic_leak_free, expandA_no_fault_succeeds)
+    # the ring's constructor and destructor under refusal patterns (theorems ring_new_leak_free, ring_lifecycle_balanced)
+    import c05 as ringgen
+    rexe = ringgen.build_harness(ck)
+    if not rexe: return
+    ck.kcompare("ring", rexe, "c05", ringgen.alloc_histories(ck), corpus_prefix="ring", what="zix_ring_new / zix_ring_free under refused allocations differ from the model (result or allocator events)")
     import c16 as envgen
     eexe = envgen.build_harness(ck)
     if not eexe: return
